@@ -1350,8 +1350,14 @@ asn1c_lang_C_type_SIMPLE_TYPE(arg_t *arg) {
 		OUT("\n");
 		DEBUG("expr constraint checking code for %s", p);
 		if(asn1c_emit_constraint_checking_code(arg) == 1) {
-			OUT("return td->encoding_constraints.general_constraints"
-				"(td, sptr, ctfailcb, app_key);\n");
+			/*
+			 * Nothing to check at this level: defer to the checker
+			 * of the underlying type. (td's own checker is this very
+			 * function, calling it would recurse forever.)
+			 */
+			OUT("return asn_DEF_%s.encoding_constraints.general_constraints"
+				"(td, sptr, ctfailcb, app_key);\n",
+				asn1c_type_name(arg, expr, TNF_SAFE));
 		}
 		INDENT(-1);
 		OUT("}\n");
